@@ -250,6 +250,9 @@ func newGater() (*conngater.BasicConnectionGater, error) {
 // exchangeMetrics is set by the running scenario: clients are then built WithMetrics.
 var exchangeMetrics bool
 
+// exchangeNoChainID is set by the running scenario: clients are built without WithChainID (no chain-id filter).
+var exchangeNoChainID bool
+
 // exchangeRestart is set by the running scenario: clients are stopped and started again before use.
 var exchangeRestart bool
 
@@ -261,8 +264,10 @@ func newClient(h host.Host, trusted []peer.ID, chainID string, opts ...p2p.Optio
 	}
 	all := append([]p2p.Option[p2p.ClientParameters]{
 		p2p.WithNetworkID[p2p.ClientParameters](netID),
-		p2p.WithChainID(chainID),
 	}, opts...)
+	if !exchangeNoChainID {
+		all = append(all, p2p.WithChainID(chainID))
+	}
 	if exchangeMetrics {
 		all = append(all, p2p.WithMetrics[p2p.ClientParameters]())
 	}
